@@ -260,14 +260,20 @@ pub fn run(seed: u64, thorough: bool, shards: u64) -> Leg {
     let mut total = Leg::new(
         "c12-wire-inproc",
         "C12",
-        "canonical DHCP messages (hlen 0..16, NUL-free sname/file, option codes 1..254, value lengths 0..1500 incl. 0, 255, 256, 510, 511) through reference-encode -> erbium decode -> erbium encode -> reference decode; mutated seed bytes accepted by erbium through encode/decode; Fragment::new_udp4 frames for payload lengths 0..1472 decoded with checksum verification; all 65536 flag values for a selecting, a renewing (ciaddr set), a relayed (giaddr set) and an all-fields-set message; distinct = (leg, shape class)",
+        "canonical DHCP messages (hlen 0..16, NUL-free sname/file, option codes 1..254, value lengths 0..1500 incl. 0, 255, 256, 510, 511) through reference-encode -> erbium decode -> erbium encode -> reference decode; mutated seed bytes accepted by erbium through encode/decode; Fragment::new_udp4 frames for payload lengths 0..1472 decoded with checksum verification; all 65536 flag values for a selecting, a renewing (ciaddr set), a relayed (giaddr set) and an all-fields-set message and for hardware-address lengths 0, 1, 7, 8, 16; distinct = (leg, shape class)",
     );
     total.floor = 5_000;
     // (c) all 65536 flag values: exhaustive, single thread, counted once
     // for a selecting client (ciaddr 0), a renewing one (ciaddr set), a relayed one (giaddr set) and a message with
     // every other header field non-zero: the bit alone decides
-    for variant in 0..4u8 {
+    for variant in 0..9u8 {
         let mut base = rd::Msg::default();
+        // variants 4..8: hardware address lengths other than an Ethernet MAC's
+        if variant >= 4 {
+            let hl = [0usize, 1, 7, 8, 16][(variant - 4) as usize];
+            base.hlen = hl as u8;
+            base.chaddr = (0..hl).map(|k| 0x20 + k as u8).collect();
+        }
         base.options = vec![(53, vec![if variant == 0 { 1 } else { 3 }])];
         if variant == 1 || variant == 3 {
             base.ciaddr = std::net::Ipv4Addr::new(10, 1, 2, 3);
@@ -312,7 +318,7 @@ pub fn run(seed: u64, thorough: bool, shards: u64) -> Leg {
             let f = first.unwrap();
             total.violation(
                 "C12/broadcast-flag-wrong-bit",
-                format!("get_broadcast_flag() disagrees with bit 15 for {} of 65536 flag values (first: {:#06x}; ciaddr {}, giaddr {})", mismatches, f, base.ciaddr, base.giaddr),
+                format!("get_broadcast_flag() disagrees with bit 15 for {} of 65536 flag values (first: {:#06x}; ciaddr {}, giaddr {}, hlen {})", mismatches, f, base.ciaddr, base.giaddr, base.hlen),
                 json!({"engine": "c12", "kind": "flags", "flags": f, "variant": variant}),
             );
         }
